@@ -398,11 +398,35 @@ def dataset_case(ctx, rng, idx):
     ctx.case(('dataset', n_ids, id_style, with_duration, direct), True,
              sample=dict(feats, dose_rows=truth))
     c = chi.ProblemModellingController(m, chi.GaussianErrorModel())
+    # call order: parameters may be fixed before / after the data arrive and
+    # the data may be set more than once
+    order = ['plain', 'fix_mechanistic_first', 'fix_error_first',
+             'fix_then_data_twice', 'fix_after_data', 'plain'][idx % 6]
+    feats['call_order'] = order
+    fix_m = {'global.elimination_rate': 0.3}
+    if rng.random() < 0.5:
+        fix_m['central.drug_amount'] = 0
     try:
+        if order in ('fix_mechanistic_first', 'fix_then_data_twice'):
+            c.fix_parameters(fix_m)
+        elif order == 'fix_error_first':
+            c.fix_parameters({'Sigma': 0.2})
         c.set_data(df, dose_duration_key=dur_key)
+        if order == 'fix_then_data_twice':
+            c.fix_parameters({'central.size': 2.0})
+            c.set_data(df, dose_duration_key=dur_key)
+        elif order == 'fix_after_data':
+            c.fix_parameters(fix_m)
         regs = c.get_dosing_regimens()
     except Exception as e:      # noqa
         ctx.violation_exc('set_data_raises', e, {'case': feats}, feats)
+        return
+    ctx.count('call_order_' + order)
+    if regs is None:
+        if any(truth.values()):
+            ctx.violation('dataset_regimen_reproduces_dose_rows',
+                          'no_regimens_reported',
+                          {'dose_rows': truth}, feats)
         return
     for key, want in truth.items():
         ctx.count('dataset_regimens_compared')
